@@ -231,7 +231,7 @@ func runThoroughMutants(res *Result, prop, repo, verif string) {
 	}
 	var benign []*mutantRun
 	skippedElsewhere := 0
-	for _, dir := range []string{"benign", "benign2", "benign3", "benign4", "benign5", "benign6", "benign7", "benign8"} {
+	for _, dir := range []string{"benign", "benign2", "benign3", "benign4", "benign5", "benign6", "benign7", "benign8", "benign9"} {
 		files, _ := filepath.Glob(filepath.Join(verif, dir, "*", "*.diff"))
 		sort.Strings(files)
 		for _, f := range files {
